@@ -573,6 +573,12 @@ func (c *Channel) removeFromInFlightPQ(msg *Message) {
 		c.inFlightMutex.Unlock()
 		return
 	}
+	if msg.index >= len(c.inFlightPQ) || c.inFlightPQ[msg.index] != msg {
+		// the pqueue was reset (Empty) or the message is not in it (yet)
+		// since it was popped from the in-flight map: nothing to remove
+		c.inFlightMutex.Unlock()
+		return
+	}
 	c.inFlightPQ.Remove(msg.index)
 	c.inFlightMutex.Unlock()
 }
